@@ -141,7 +141,8 @@ CLAIMED.update({
          'the lemmatizer\'s proposals filtered by pos, or the form itself; every result has a form row matching a candidate form '
          '(original or normalized column, lemma only when search_all_forms is off) with the requested pos inside the selection; '
          'one pass is complete for entries, senses and synsets with a matching form. The statement about an empty proposal set '
-         '(no form restriction) is part of the theorem. Extension-contributed forms: known finding F14.',
+         '(no form restriction) is part of the theorem. For synsets the sense that links the form to the synset belongs to the '
+         'selection (defect F22, found here and fixed). Extension-contributed forms: known finding F14.',
          CORE_TRUST, 'DESIGN.md section 5 C09, Appendix E'),
  'C10': ('Coq proof over the Gallina model of navigation (Sense.word/synset, Word.senses/synsets, Synset.senses/words/lemmas, '
          'translate, entity equality keys) written from wn/_core.py; differential correspondence of the observation battery incl. '
@@ -245,12 +246,17 @@ CLAIMED.update({
          'and by add with the database unchanged, and that scan_lexicons agrees with load on accepted documents',
          'Theorems (closed under the global context): the header is accepted exactly for the XML declaration followed by a DOCTYPE '
          'of a supported version, and dump always writes such a header; an element the declared version does not allow (incl. '
-         'elements of other versions), a repeated single child or a missing id anywhere in the document makes load fail; for every '
+         'elements of other versions), a repeated single child or a missing id anywhere in the document makes load fail; so does '
+         'every omission the _validate functions assert (the six Lexicon attributes, Lemma/writtenForm/partOfSpeech, synset of a '
+         'Sense, ili of a Synset, target/relType, id/version of Requires and Extends, subcategorizationFrame, Tag category), a '
+         'Count that int() rejects, External* elements outside an extension, an ExternalForm without id and a root that is not '
+         'LexicalResource — one boolean fault predicate per requirement at exactly the visited positions, for every version '
+         '(Proofs/LmfRequired.v; its 64 minimal documents, rejected and accepted neighbours, are re-run against the real '
+         'load and add on every check); for every '
          'file dump writes, scan_lexicons returns exactly the id, version, label and extension base of every lexicon in order, '
          'whatever other attribute values, texts and metadata contain (the start-tag tokenisation and unescaping are exact); '
          'comments and CDATA sections contribute nothing; a start tag without id or version never yields a list. Partial: '
-         'ill-formed XML is expat\'s domain (not modelled); the remaining attribute-level requirements are decided by '
-         'correspondence on mutations; "scan = load" is proved for dump-written files (scan_dump composed with C02\'s round trip) '
+         'ill-formed XML is expat\'s domain (not modelled); "scan = load" is proved for dump-written files (scan_dump composed with C02\'s round trip) '
          'and decided by the oracle for other valid files. "Database unchanged" is C06\'s atomicity theorem plus the fact that '
          'add starts from the loaded resource. The proofs uncovered defects F21/F21b of scan_lexicons (fixed).',
          LMF_TRUST, 'DESIGN.md section 5 C20, Appendix E'),
